@@ -266,7 +266,18 @@ def finalize(agg, tier):
 def replay(case, kind=None):
 	sh = Shard()
 	if 'place' in case:
-		return [v for v in t_skewed(case['da'], 'thorough').violations if v['case'] == case]
+		import numpy as np
+		from gambit.metric import jaccarddist
+		da, db, n, place = case['da'], case['db'], case['n'], case['place']
+		top = dtype_max(db) if place == 'top-of-b' else min(dtype_max(da), dtype_max(db)) if place == 'top-of-common' else 3 * n + 7
+		step = 1 if top - n > 0 and place != 'low' else 3
+		large = list(range(top - step * (n - 1), top + 1, step))
+		S, L = np.array(case['small'], dtype=da), np.array(large, dtype=db)
+		exp = R.f32_bits_of_fraction(Fraction(len(set(large) ^ set(case['small'])), len(set(large) | set(case['small']))))
+		got = f32bits(jaccarddist(S, L) if case['order'] == 'small-first' else jaccarddist(L, S))
+		if got != exp:
+			sh.violation('jaccarddist-skewed', case, exp, got)
+		return sh.violations
 	if 'pattern' in case:
 		return [v for part in range(4) for v in t_large(part, 4, 'thorough').violations if v['case'] == case]
 	if 'A' in case:
